@@ -79,7 +79,8 @@ class C05(vlib.Check):
             "concat, set_prop, update_props, pickle, savez+load, ==, iteration, density, similarity) over a pool of live "
             "databases of the three kinds, bits in {8,64,1024,2^32}, duplicate and None names, 0-3 typed property columns; "
             "after every step every live database is dumped and compared with the model, and observed through db[i], "
-            "db[name], the name index and iteration against a plain list-of-rows oracle. Non-trivial: history with at least "
+            "db[name], the name index and iteration against a plain list-of-rows oracle; databases whose matrix holds explicitly "
+            "stored zeros are put through every read-only operation (frame only). Non-trivial: history with at least "
             "one derived database and one read; distinct by history.")
     trusted_base = ["SciPy CSR vstack / slicing / sum_duplicates, NumPy savez/load, pickle (compared on every run)"]
     faults = False
@@ -93,6 +94,78 @@ class C05(vlib.Check):
             for op in c["ops"]:
                 self.count("op:" + op["op"] + (":fault" if op.get("fault") else ""))
             yield c
+        yield from self.gen_zero_cases()
+
+    def gen_zero_cases(self):
+        """databases whose matrix holds explicitly stored zeros (legitimate CSR: `X.data[X.data < t] = 0` leaves them behind;
+        also what casting small float weights to a count database stores), put through every read-only operation; only the
+        frame is checked here - the source must read the same before and after - because what an explicit zero *means* as a
+        fingerprint is outside the properties."""
+        rng = self.rng
+        for _ in range(10 if self.tier == "quick" else 120):
+            kind = rng.choice(["count", "float", "bit"])
+            bits = rng.choice([64, 1024])
+            rows = []
+            for _r in range(rng.randint(1, 4)):
+                cols = rng.sample(range(bits), rng.randint(1, 6))
+                ent = [[c, "1" if kind == "bit" else rng.choice(["1", "2", "5"])] for c in cols]
+                for z in rng.sample(range(len(ent)), rng.randint(1, min(2, len(ent)))):
+                    ent[z][1] = "0"
+                rng.shuffle(ent)
+                rows.append(ent)
+            self.count("explicit-zeros")
+            yield {"t": "zeros", "kind": kind, "bits": bits, "rows": rows, "names": [rng.choice(["a", "b", None, "a"]) for _ in rows],
+                   "reads": rng.sample(["get_index", "get_name", "iter", "density", "density_i", "metric", "eq", "subset", "as_type", "copy",
+                                        "fold", "pickle", "savez", "concat"], 8)}
+
+    def _zeros_prop(self, case):
+        import numpy as np
+        from scipy.sparse import csr_matrix
+        from harness.fpgen import CLS
+        data, indices, indptr = [], [], [0]
+        for ent in case["rows"]:
+            for c, v in ent:
+                indices.append(c)
+                data.append(float(v))
+            indptr.append(len(indices))
+        arr = csr_matrix((np.array(data, dtype=dbgen.DTYPE[case["kind"]]), np.array(indices, dtype=np.int64), np.array(indptr, dtype=np.int64)),
+                         shape=(len(case["rows"]), case["bits"]))
+        db = dbgen.FingerprintDatabase.from_array(arr, list(case["names"]), fp_type=CLS[case["kind"]], level=5)
+        nm = next((n for n in case["names"] if n is not None), None)
+        run = ImplRun(self.tmp())
+        run.live["z"] = db
+
+        def observe_all():
+            return (dump_db(db), [dump_fpin(db[i]) for i in range(len(db))], [dump_fpin(x) for x in db])
+        for r in case["reads"]:
+            before = observe_all()
+            twin = copy.copy(db)
+            op = {"get_index": {"op": "get_index", "id": "z", "i": 0}, "get_name": {"op": "get_name", "id": "z", "nm": nm or "absent"},
+                  "iter": {"op": "iter", "id": "z"}, "density": {"op": "density", "id": "z"}, "metric": {"op": "metric", "id": "z"},
+                  "eq": {"op": "eq", "a": "z", "b": "z"}, "subset": {"op": "subset", "id": "z", "out": "o", "names": [nm] if nm else ["absent"], "name": None},
+                  "as_type": {"op": "as_type", "id": "z", "out": "o", "kind": case["kind"]}, "copy": {"op": "copy", "id": "z", "out": "o", "kind": case["kind"]},
+                  "fold": {"op": "fold", "id": "z", "out": "o", "bits": case["bits"] // 2, "kind": None, "name": None},
+                  "pickle": {"op": "pickle", "id": "z", "out": "o"}, "savez": {"op": "savez", "id": "z", "out": "o"},
+                  "concat": {"op": "concat", "ids": ["z", "z"], "out": "o"}}.get(r)
+            try:
+                if r == "density_i":
+                    db.get_density(int(case["rows"][0][0][0]))
+                else:
+                    run.step(op)
+            except Exception:  # noqa: BLE001 - what the read answers is not the question here
+                pass
+            after = observe_all()
+            if after != before:
+                return {"key": "read-changes-source:%s:explicit-zeros" % r,
+                        "what": "read-only %s changed a database whose matrix holds explicitly stored zeros" % r,
+                        "before": before[0]["rows"], "after": after[0]["rows"]}
+            try:
+                same = bool(db == twin)
+            except Exception as e:  # noqa: BLE001
+                return {"key": "db-eq-raises:" + type(e).__name__, "what": "== raised %r" % e}
+            if not same:
+                return {"key": "read-changes-equality:%s:explicit-zeros" % r, "what": "after read-only %s the database no longer equals its copy" % r}
+        return None
 
     def tmp(self):
         if not hasattr(self, "_tmp"):
@@ -106,6 +179,8 @@ class C05(vlib.Check):
 
     # ------------------------------------------------------------------ correspondence
     def impl(self, case):
+        if case.get("t") == "zeros":
+            return {"steps": []}
         run = ImplRun(self.tmp())
         steps = []
         for k, op in enumerate(case["ops"]):
@@ -118,6 +193,8 @@ class C05(vlib.Check):
         return {"steps": steps}
 
     def model_ops(self, case):
+        if case.get("t") == "zeros":
+            return [{"op": "db.reset"}]
         lines = [{"op": "db.reset"}]
         for k, op in enumerate(case["ops"]):
             lines.extend(model_op(op))
@@ -126,6 +203,8 @@ class C05(vlib.Check):
         return lines
 
     def model_answer(self, case, answers):
+        if case.get("t") == "zeros":
+            return {"steps": []}
         pos = 1
         steps = []
         for k, op in enumerate(case["ops"]):
@@ -150,6 +229,8 @@ class C05(vlib.Check):
 
     # ------------------------------------------------------------------ the property itself
     def prop(self, case):
+        if case.get("t") == "zeros":
+            return self._zeros_prop(case)
         run = ImplRun(self.tmp())
         olive = {}
         for k, op in enumerate(case["ops"]):
@@ -244,6 +325,8 @@ class C05(vlib.Check):
         return None
 
     def nontrivial(self, case, a_impl):
+        if case.get("t") == "zeros":
+            return vlib.canon(case)
         ops = [o["op"] for o in case["ops"]]
         if any(o in ("subset", "as_type", "copy", "fold", "concat", "pickle", "savez") for o in ops) and \
                 any(o in ("get_index", "get_name", "iter", "eq") for o in ops):
@@ -251,6 +334,8 @@ class C05(vlib.Check):
         return None
 
     def neighbours(self, case):
+        if case.get("t") == "zeros":
+            return []
         # prefixes of the history
         return [{"t": "hist", "ops": case["ops"][:k]} for k in range(len(case["ops"]) - 1, 0, -1)]
 
